@@ -70,13 +70,13 @@ Definition dispatch_table_old (cb : callback) (dh : str -> dstate -> dstate) (T 
   end.
 
 (* a root dispatch into a flat table of leaves; which ports ran *)
-Definition leaf_cb (T : table) : callback := fun i m d => leaf_event (t_id T) i m d.
+Definition leaf_cb (T : table) : callback := fun i m d => leaf_event (t_id T) i m true d.
 Definition no_dh : str -> dstate -> dstate := fun _ d => d.
 
 Fixpoint invoked (l : list event) : list Z :=
   match l with
   | [] => []
-  | Ev _ i _ _ _ _ :: r => invoked r ++ [i]
+  | Ev _ i _ _ _ _ _ :: r => invoked r ++ [i]
   | _ :: r => invoked r
   end.
 
